@@ -1324,6 +1324,10 @@ class QuadraticForm(Expression):
         matrix: np.ndarray,
     ) -> None:
         matrix = np.asarray(matrix)
+        if matrix.dtype.kind in "biu":
+            # integer / bool matrices are promoted: the derivative rules form
+            # Q + Q.T in the matrix's own dtype, which wraps for narrow integers
+            matrix = matrix.astype(np.float64)
         if matrix.ndim != 2:
             raise WrongDimensionalityError(
                 context="quadratic form",
